@@ -99,7 +99,9 @@ def _h(*parts) -> int:
 FLOATS = [0.1, 1e-07, 123456.789, 0.30000000000000004, 2.5, 1 / 3, 5e-324, 1.7976931348623157e+308, 44100.0, 0.0]
 STRS = ["plain", "Ünï©ødé ✓", "with space", "a/b\\c", "", "\"quoted\"", "line\nbreak", "日本語",
         # leading / trailing white space is part of the value (any trimming on the way to the document shows)
-        "  padded both  ", "trailing ", "\tleading tab", " "]
+        "  padded both  ", "trailing ", "\tleading tab", " ",
+        # text that is NOT in composed (NFC) form: e + U+0301, OHM SIGN, a + ring -- stored and loaded code point by code point
+        "Cafe\u0301", "\u2126hm", "A\u030angstrom"]
 GEOMS = [
     None,
     lambda: data.TimeStamp(coordinates=0.1),
@@ -241,7 +243,7 @@ def build_world(case, audio_root: Path):
             # ... and two tags whose "label:value" spellings coincide although label and value differ (t1 / t3: the colon sits
             # at another place), one tag that differs from another only by surrounding blanks (t0 / t4)
             tkey = "key_" + "abbba"[n % 5] + str(n // 5) + (":x" if n % 5 == 3 else "")
-            tval = ["v one", "x:v one", "välue 2", "v one", " v one "][n % 5]
+            tval = ["v one", "x:v one", "va\u0308lue 2", "v one", " v one "][n % 5]       # the third value is decomposed (a + U+0308)
             # every tag's term has the SAME name and its own label: the document format identifies a tag by (label, value)
             o = data.Tag(term=data.Term(name="verif:shared_name", label=tkey, definition="shared name, own label"), value=tval)
             assert (tkey, tval) not in rev, "tag catalogue must be injective"
